@@ -392,6 +392,35 @@ func AddLocals(t *rapid.T, m *Model, o Opts) {
 					}
 				}
 			}
+			// a later block gives an earlier local a new value, possibly built from the old one
+			// (`headers = merge(local.headers, {...})`): blocks are evaluated in order, the later value wins
+			if b > 0 && len(g.types) > 0 && g.chance(ll+"?override", 20) {
+				var all []string
+				for nm := range g.types {
+					all = append(all, nm)
+				}
+				sort.Strings(all)
+				name := rapid.SampledFrom(all).Draw(t, ll+".overridden")
+				if !inBlock[name] {
+					typ := g.types[name]
+					e := g.typed(ll+".override", typ, 2)
+					if g.chance(ll+".override.extends", 50) {
+						switch typ {
+						case "m":
+							e = Expr{K: "f", S: "merge", A: []Expr{ref(name), e}}
+						case "l":
+							e = Expr{K: "f", S: "concat", A: []Expr{ref(name), e}}
+						}
+					}
+					if v, ok := g.ev(e); ok && !sameValue(v, g.visible[name]) {
+						inBlock[name] = true
+						next[name] = v
+						nextTypes[name] = typ
+						blk.Locals = append(blk.Locals, Local{Name: name, Expr: e, Override: true})
+						continue
+					}
+				}
+			}
 			var name string
 			if g.chance(ll+".name?pool", 60) {
 				name = rapid.SampledFrom(poolLocalNames).Draw(t, ll+".name")
